@@ -77,6 +77,9 @@ pub fn views_check(s: &Sparse<Rat>, rows: usize, cols: usize, m: &SM) -> Result<
     for k in 0..nnz {
         ensure!(ci[k] == t[k].1, "col_index[{}] = {} but entry {} lies in column {}", k, ci[k], k, t[k].1);
     }
+    // and back: the column starts recomputed from the expansion are the stored ones
+    let back = s.col_start_from_index(&ci);
+    ensure!(back == s.col_start, "col_start_from_index(col_index()) = {:?} but col_start = {:?}", back, s.col_start);
     Ok(())
 }
 
